@@ -307,3 +307,72 @@ Proof.
     cbn [bptr bsize nb] in Hdisj. lia.
   - cbn [o_res snd fst]. intros _ Hsame. apply Hsame.
 Qed.
+
+Lemma raw_shrink_live c s ptr osize oalign nsize nalign r : live (fst (raw_shrink c s ptr osize oalign nsize nalign r)) = live s.
+Proof.
+  unfold raw_shrink.
+  destruct (negb (divides nalign ptr)).
+  - destruct (shrinks c && is_last c s ptr osize).
+    + destruct (cur_chunk s) as [ch0|]; [|reflexivity].
+      set (sd := dealloc_assume_last c s ptr osize).
+      assert (Hsd : live sd = live s) by apply dealloc_assume_last_live.
+      destruct (cur_chunk sd) as [ch|]; [|reflexivity].
+      destruct (chunk_alloc c (malign s) ch nsize nalign) as [[np ch1]|].
+      * cbn [copy_block fst live upd_mem]. destruct (cur sd); exact Hsd.
+      * set (s2 := set_cur_pos sd (cpos ch0)).
+        assert (Hs2 : live s2 = live s) by (unfold s2; rewrite set_cur_pos_live; exact Hsd).
+        pose proof (raw_alloc_slow_live c s2 nsize nalign r) as Hm3.
+        destruct (raw_alloc_slow c s2 nsize nalign r) as [s3 [np|e]]; cbn [fst copy_block live upd_mem] in *; rewrite Hm3; exact Hs2.
+    + pose proof (raw_alloc_live c s nsize nalign r) as Hm1.
+      destruct (raw_alloc c s nsize nalign r) as [s2 [np|e]]; cbn [fst copy_block live upd_mem] in *; exact Hm1.
+  - destruct (negb (shrinks c) || negb (is_last c s ptr osize)); [reflexivity|].
+    destruct (up c); [apply set_cur_pos_live|]. cbn [copy_block fst]. rewrite set_cur_pos_live. reflexivity.
+Qed.
+
+Lemma ws_shrink_live c s ptr osize oalign nsize nalign r : live (fst (ws_shrink c s ptr osize oalign nsize nalign r)) = live s.
+Proof.
+  unfold ws_shrink. destruct (divides nalign ptr); [reflexivity|].
+  pose proof (raw_alloc_live c s nsize nalign r) as Hm1.
+  destruct (raw_alloc c s nsize nalign r) as [s2 [np|e]]; cbn [fst copy_block live upd_mem] in *; exact Hm1.
+Qed.
+
+(* shrinking one block leaves the bytes of every other live block alone *)
+Theorem shrink_keeps_other_blocks c s0 h ws b nsize nalign r blk b' :
+  cfg_ok c -> fix_without_shrink c = true -> inv c s0 -> valid_layout nsize nalign -> resp_ok c s0 nsize nalign r ->
+  find_block (tick s0) b = Some blk -> 0 <= nsize <= bsize blk ->
+  In b' (live s0) -> bid b' <> b ->
+  forall a, bptr b' <= a < bptr b' + bsize b' ->
+  mem (fst (step c s0 (OShrink h ws b nsize nalign) r)) a = mem s0 a.
+Proof.
+  intros Hc Hfix Hinv Hl Hr Hf Hle Hin Hne a Ha.
+  assert (Hinv' : inv c (fst (step c s0 (OShrink h ws b nsize nalign) r))).
+  { apply step_inv_shrink; try assumption. intros blk0 Hf0.
+    assert (E : find_block (tick s0) b = find_block s0 b) by reflexivity. rewrite E in Hf. rewrite Hf in Hf0. injection Hf0 as <-. lia. }
+  pose proof (shrink_contents_and_frame c s0 h ws b nsize nalign r blk Hfix Hf Hle) as Hcf.
+  revert Hinv' Hcf. cbn [step]. set (s := tick s0) in *. rewrite Hf.
+  destruct (negb (is_top s h) && negb (has_wrapper WShrink ws && divides nalign (bptr blk))).
+  - destruct (divides nalign (bptr blk)).
+    + destruct (add_block (remove_block s b) (bptr blk) (bsize blk) nalign) as [s3 id] eqn:Ea. cbn [o_res snd fst].
+      intros _ _. unfold add_block in Ea. injection Ea as <- _. reflexivity.
+    + cbn. intros _ _. reflexivity.
+  - set (go := if has_wrapper WShrink ws then ws_shrink else raw_shrink).
+    assert (Hlv : live (fst (go c s (bptr blk) (bsize blk) (balign blk) nsize nalign r)) = live s).
+    { unfold go. destruct (has_wrapper WShrink ws); [apply ws_shrink_live|apply raw_shrink_live]. }
+    destruct (go c s (bptr blk) (bsize blk) (balign blk) nsize nalign r) as [s1 [ro|e]] eqn:Eg; cbn [fst] in Hlv.
+    + destruct (add_block (remove_block s1 b) (ro_ptr ro) (ro_size ro) nalign) as [s3 id] eqn:Ea.
+      cbn [o_res snd fst]. intros Hinv' (Hsz & _ & Hframe).
+      apply Hframe. intros Hr'.
+      unfold add_block in Ea. injection Ea as <- <-.
+      set (nb := mkBlock (nextid s1) (ro_ptr ro) (ro_size ro) nalign (epoch s1)) in *.
+      assert (Hb'in : In b' (filter (fun x => negb (Nat.eqb (bid x) b)) (live s1))).
+      { apply filter_In. split; [rewrite Hlv; exact Hin|]. apply Bool.negb_true_iff. apply Nat.eqb_neq. exact Hne. }
+      destruct (inv_live_blocks c _ Hc Hinv') as [_ Hdisj].
+      cbn [live bump_id upd_live remove_block] in Hdisj.
+      assert (Hidne : bid nb <> bid b').
+      { destruct Hinv' as (_ & _ & _ & [Hnd _]). cbn [live bump_id upd_live remove_block map] in Hnd.
+        inversion Hnd as [|? ? Hnotin _]; subst. cbn [bid nb]. intros E. apply Hnotin. cbn [bid]. rewrite E. apply in_map. exact Hb'in. }
+      assert (Hz' : 0 < bsize nb) by (cbn [bsize nb]; lia).
+      specialize (Hdisj nb b' (or_introl eq_refl) (or_intror Hb'in) Hidne Hz' ltac:(lia)).
+      cbn [bptr bsize nb] in Hdisj. lia.
+    + cbn [o_res snd fst]. intros _ Hsame. apply Hsame.
+Qed.
